@@ -1,1 +1,419 @@
 import SwcVerif.Gen.VolumeFormulas
+import SwcVerif.Proofs.Additive
+import Mathlib.Analysis.SpecialFunctions.Integrals.Basic
+/-! # C13 — closed-form volumes of the primitives equal the true geometric volume
+
+All theorems are about the formulas GENERATED from `swcgeom/utils/volumetric_object.py`
+(`Gen.Vol.*`), instantiated at `ℝ` with `pi := Real.pi`.
+
+"True volume" of a solid of revolution about the common axis is `π ∫ ρ(z)² dz` (disc method; its
+equality with Lebesgue measure is part of the trusted base).  Profiles:
+
+* sphere of radius `r` centred at `0`:      `ρ² = r² - z²`            on `[-r, r]`
+* cap of height `h`:                         the same on `[r-h, r]`
+* frustum `r1 → r2` over height `h`:         `ρ  = r1 + (r2-r1)·z/h`   on `[0, h]`
+* lens of two spheres at distance `d`:       `ρ² = max 0 (min (r1²-z²) (r2²-(z-d)²))` on `[-r1, r1]`
+* sphere ∩ frustum sharing centre and radius at one end (the frustum lies in `z ≥ 0`):
+                                             `ρ² = min (r1²-z²) ((r1+(r2-r1)·z/h)²)` on `[0, min h r1]`
+-/
+namespace C13
+open intervalIntegral Gen.Vol
+
+noncomputable section
+
+/-- squared radius of the two-sphere lens at height `z` (sphere 1 at `0`, sphere 2 at `d`) -/
+def lensProfile (r1 r2 d z : ℝ) : ℝ := max 0 (min (r1^2 - z^2) (r2^2 - (z - d)^2))
+/-- squared radius of sphere ∩ frustum at height `z ≥ 0` -/
+def sfProfile (r1 r2 h z : ℝ) : ℝ := min (r1^2 - z^2) ((r1 + (r2 - r1) / h * z)^2)
+/-- meridian-plane exit parameter of the lateral edge `(r1,0) → (r2,h)` from the sphere of radius `r1` -/
+def exitT (r1 r2 h : ℝ) : ℝ := 2 * r1 * (r1 - r2) / (h * h + (r1 - r2) * (r1 - r2))
+
+/-! ### helpers: Python `abs`/`min` at ℝ -/
+
+theorem absK_eq (x : ℝ) : absK x = |x| := by
+  unfold absK
+  split_ifs with h
+  · exact (abs_of_neg h).symm
+  · exact (abs_of_nonneg (not_lt.mp h)).symm
+
+theorem minK_eq (a b : ℝ) : minK a b = min a b := by
+  unfold minK
+  split_ifs with h
+  · exact (min_eq_right h.le).symm
+  · exact (min_eq_left (not_lt.mp h)).symm
+
+/-- the `exitT` of the theorems is the `exitTK` the driver evaluates (one definition, two carriers) -/
+theorem exitT_eq_model (r1 r2 h : ℝ) : exitT r1 r2 h = exitTK r1 r2 h := rfl
+
+theorem integral_quadratic (A B C a b : ℝ) :
+    ∫ z in a..b, (A + B * z + C * z^2) = A*(b-a) + B*(b^2-a^2)/2 + C*(b^3-a^3)/3 := by
+  rw [integral_add, integral_add] <;> try (apply Continuous.intervalIntegrable; fun_prop)
+  rw [integral_const, integral_const_mul, integral_const_mul, integral_id, integral_pow]
+  simp only [smul_eq_mul]; ring
+
+/-! ### helpers: the three profile shapes as `A + B z + C z²` -/
+
+theorem sq_sub_sq_quad (r : ℝ) : ∀ z : ℝ, r^2 - z^2 = r^2 + 0 * z + (-1) * z^2 := by intro z; ring
+
+theorem sq_sub_shift_quad (r d : ℝ) : ∀ z : ℝ, r^2 - (z-d)^2 = (r^2 - d^2) + (2*d)*z + (-1) * z^2 := by
+  intro z; ring
+
+theorem lin_sq_quad (r k : ℝ) : ∀ z : ℝ, (r + k*z)^2 = r^2 + (2*r*k) * z + (k^2) * z^2 := by intro z; ring
+
+/-- sphere: `4/3 π r³ = π ∫_{-r}^{r} (r² - z²)` -/
+theorem sphere_volume (r : ℝ) :
+    sphereVolume Real.pi r = Real.pi * ∫ z in (-r)..r, (r^2 - z^2) := by
+  simp only [sq_sub_sq_quad, integral_quadratic, sphereVolume]
+  ring
+
+/-- spherical cap of height `h` (every `h`, in particular `0 ≤ h ≤ 2r`) -/
+theorem cap_volume (r h : ℝ) :
+    capVolume Real.pi r h = Real.pi * ∫ z in (r - h)..r, (r^2 - z^2) := by
+  simp only [sq_sub_sq_quad, integral_quadratic, capVolume]
+  ring
+
+/-- frustum (cone when one radius is 0, cylinder when equal; either taper direction) -/
+theorem frustum_volume (r1 r2 h : ℝ) (hh : h ≠ 0) :
+    frustumVolume Real.pi r1 r2 h = Real.pi * ∫ z in (0:ℝ)..h, (r1 + (r2 - r1) / h * z)^2 := by
+  simp only [lin_sq_quad, integral_quadratic, frustumVolume]
+  field_simp
+  ring
+
+/-- the formula does not depend on which end is called `1` (orientation / taper direction) -/
+theorem frustum_symm (r1 r2 h : ℝ) : frustumVolume Real.pi r1 r2 h = frustumVolume Real.pi r2 r1 h := by
+  simp only [frustumVolume]; ring
+
+/-! ### lens helpers -/
+
+theorem lensProfile_continuous (r1 r2 d : ℝ) : Continuous (lensProfile r1 r2 d) := by
+  unfold lensProfile; fun_prop
+
+theorem lens_formula (r1 r2 d : ℝ) (hd : d ≠ 0) :
+    Real.pi / (12 * d) * ((r1 + r2 - d) * (r1 + r2 - d)) *
+        (d * d + 2 * d * r1 - 3 * (r1 * r1) + 2 * d * r2 - 3 * (r2 * r2) + 6 * r1 * r2)
+      = Real.pi * ((∫ z in (d - r2)..((d^2 + r1^2 - r2^2) / (2*d)), (r2^2 - (z-d)^2))
+          + ∫ z in ((d^2 + r1^2 - r2^2) / (2*d))..r1, (r1^2 - z^2)) := by
+  simp only [sq_sub_shift_quad r2 d, sq_sub_sq_quad r1, integral_quadratic]
+  field_simp
+  ring
+
+/-- two-sphere intersection: disjoint (incl. nothing in common but possibly a tangent point is the
+`d = r1 + r2` boundary of the proper case) -/
+theorem lens_disjoint (r1 r2 d : ℝ) (h1 : 0 ≤ r1) (h2 : 0 ≤ r2) (hd : r1 + r2 < d) :
+    lensVolume Real.pi r1 r2 d = Real.pi * ∫ z in (-r1)..r1, lensProfile r1 r2 d z := by
+  have e : ∀ z ∈ Set.uIcc (-r1) r1, lensProfile r1 r2 d z = 0 := by
+    intro z hz
+    rw [Set.uIcc_of_le (by linarith)] at hz
+    unfold lensProfile
+    apply max_eq_left
+    apply (min_le_right _ _).trans
+    nlinarith [hz.2]
+  have hc : d > r1 + r2 := hd
+  simp only [lensVolume, if_pos hc]
+  rw [integral_congr e]
+  simp
+
+/-- nested spheres (incl. internally tangent `d = |r1 - r2|` and concentric `d = 0`) -/
+theorem lens_nested (r1 r2 d : ℝ) (h1 : 0 ≤ r1) (h2 : 0 ≤ r2) (hd0 : 0 ≤ d) (hd : d ≤ |r1 - r2|) :
+    lensVolume Real.pi r1 r2 d = Real.pi * ∫ z in (-r1)..r1, lensProfile r1 r2 d z := by
+  have hc1 : ¬ (d > r1 + r2) := by
+    intro h'
+    have : |r1 - r2| ≤ r1 + r2 := abs_le.mpr ⟨by linarith, by linarith⟩
+    linarith
+  have hP := lensProfile_continuous r1 r2 d
+  simp only [lensVolume, absK_eq, minK_eq, if_neg hc1, if_pos hd]
+  by_cases hr : r2 < r1
+  · -- sphere 2 inside sphere 1
+    rw [abs_of_pos (by linarith)] at hd
+    rw [min_eq_right hr.le]
+    have eA : ∀ z ∈ Set.uIcc (-r1) (d - r2), lensProfile r1 r2 d z = 0 := by
+      intro z hz
+      rw [Set.uIcc_of_le (by linarith)] at hz
+      unfold lensProfile
+      apply max_eq_left
+      apply (min_le_right _ _).trans
+      nlinarith [hz.2]
+    have eB : ∀ z ∈ Set.uIcc (d - r2) (d + r2), lensProfile r1 r2 d z = r2^2 - (z - d)^2 := by
+      intro z hz
+      rw [Set.uIcc_of_le (by linarith)] at hz
+      unfold lensProfile
+      rw [min_eq_right, max_eq_right]
+      · nlinarith [hz.1, hz.2]
+      · nlinarith [hz.1, hz.2, mul_nonneg hd0 (sub_nonneg.mpr hz.2)]
+    have eC : ∀ z ∈ Set.uIcc (d + r2) r1, lensProfile r1 r2 d z = 0 := by
+      intro z hz
+      rw [Set.uIcc_of_le (by linarith)] at hz
+      unfold lensProfile
+      apply max_eq_left
+      apply (min_le_right _ _).trans
+      nlinarith [hz.1]
+    rw [← integral_add_adjacent_intervals (b := d - r2) (hP.intervalIntegrable _ _) (hP.intervalIntegrable _ _),
+      ← integral_add_adjacent_intervals (a := d - r2) (b := d + r2) (hP.intervalIntegrable _ _)
+        (hP.intervalIntegrable _ _),
+      integral_congr eA, integral_congr eB, integral_congr eC]
+    simp only [sq_sub_shift_quad, integral_quadratic, sphereVolume, integral_zero]
+    ring
+  · have hr' : r1 ≤ r2 := not_lt.mp hr
+    rw [abs_of_nonpos (by linarith)] at hd
+    rw [min_eq_left hr']
+    have e : ∀ z ∈ Set.uIcc (-r1) r1, lensProfile r1 r2 d z = r1^2 - z^2 := by
+      intro z hz
+      rw [Set.uIcc_of_le (by linarith)] at hz
+      unfold lensProfile
+      rw [min_eq_left, max_eq_right]
+      · nlinarith [hz.1, hz.2]
+      · nlinarith [hz.1, hz.2, mul_nonneg hd0 (by linarith [hz.1] : (0:ℝ) ≤ z + r1)]
+    rw [integral_congr e]
+    exact sphere_volume r1
+
+/-- proper lens (incl. externally tangent `d = r1 + r2`) -/
+theorem lens_proper (r1 r2 d : ℝ) (h1 : 0 ≤ r1) (h2 : 0 ≤ r2) (hlo : |r1 - r2| < d) (hhi : d ≤ r1 + r2) :
+    lensVolume Real.pi r1 r2 d = Real.pi * ∫ z in (-r1)..r1, lensProfile r1 r2 d z := by
+  have _ := h1
+  have hc1 : ¬ (d > r1 + r2) := not_lt.mpr hhi
+  have hc2 : ¬ (d ≤ |r1 - r2|) := not_le.mpr hlo
+  have hd0 : 0 < d := lt_of_le_of_lt (abs_nonneg _) hlo
+  obtain ⟨hlo1, hlo2⟩ := abs_lt.mp hlo
+  have hP := lensProfile_continuous r1 r2 d
+  simp only [lensVolume, absK_eq, if_neg hc1, if_neg hc2]
+  rw [lens_formula r1 r2 d hd0.ne']
+  set z0 := (d^2 + r1^2 - r2^2) / (2*d) with hz0
+  have hz0d : z0 * (2 * d) = d^2 + r1^2 - r2^2 := by rw [hz0]; field_simp
+  have hz0lo : d - r2 ≤ z0 := by
+    rw [hz0, le_div_iff₀ (by linarith)]
+    nlinarith [mul_nonneg (by linarith : (0:ℝ) ≤ r1 - (d - r2)) (by linarith : (0:ℝ) ≤ r1 + (d - r2))]
+  have hz0hi : z0 ≤ r1 := by
+    rw [hz0, div_le_iff₀ (by linarith)]
+    nlinarith [mul_nonneg (by linarith : (0:ℝ) ≤ r2 - (d - r1)) (by linarith : (0:ℝ) ≤ r2 + (d - r1))]
+  have key : ∀ z : ℝ, (r1^2 - z^2) - (r2^2 - (z - d)^2) = (z0 - z) * (2 * d) := by
+    intro z; rw [sub_mul, hz0d]; ring
+  have eA : ∀ z ∈ Set.uIcc (-r1) (d - r2), lensProfile r1 r2 d z = 0 := by
+    intro z hz
+    rw [Set.uIcc_of_le (by linarith)] at hz
+    unfold lensProfile
+    apply max_eq_left
+    apply (min_le_right _ _).trans
+    nlinarith [hz.2]
+  have eB : ∀ z ∈ Set.uIcc (d - r2) z0, lensProfile r1 r2 d z = r2^2 - (z - d)^2 := by
+    intro z hz
+    rw [Set.uIcc_of_le hz0lo] at hz
+    unfold lensProfile
+    rw [min_eq_right, max_eq_right]
+    · nlinarith [mul_nonneg (by linarith [hz.1] : (0:ℝ) ≤ r2 + (z - d)) (by linarith [hz.2] : (0:ℝ) ≤ r2 - (z - d))]
+    · have := key z
+      have : 0 ≤ (z0 - z) * (2 * d) := mul_nonneg (by linarith [hz.2]) (by linarith)
+      linarith
+  have eC : ∀ z ∈ Set.uIcc z0 r1, lensProfile r1 r2 d z = r1^2 - z^2 := by
+    intro z hz
+    rw [Set.uIcc_of_le hz0hi] at hz
+    unfold lensProfile
+    rw [min_eq_left, max_eq_right]
+    · nlinarith [mul_nonneg (by linarith [hz.1] : (0:ℝ) ≤ r1 + z) (by linarith [hz.2] : (0:ℝ) ≤ r1 - z)]
+    · have := key z
+      have : (z0 - z) * (2 * d) ≤ 0 := mul_nonpos_of_nonpos_of_nonneg (by linarith [hz.1]) (by linarith)
+      linarith
+  rw [← integral_add_adjacent_intervals (a := -r1) (b := d - r2) (c := r1) (hP.intervalIntegrable _ _)
+      (hP.intervalIntegrable _ _),
+    ← integral_add_adjacent_intervals (a := d - r2) (b := z0) (c := r1) (hP.intervalIntegrable _ _)
+      (hP.intervalIntegrable _ _),
+    integral_congr eA, integral_congr eB, integral_congr eC]
+  simp only [integral_zero, zero_add]
+
+/-- **two-sphere intersection, every configuration** -/
+theorem lens_volume (r1 r2 d : ℝ) (h1 : 0 ≤ r1) (h2 : 0 ≤ r2) (hd0 : 0 ≤ d) :
+    lensVolume Real.pi r1 r2 d = Real.pi * ∫ z in (-r1)..r1, lensProfile r1 r2 d z := by
+  by_cases hA : r1 + r2 < d
+  · exact lens_disjoint r1 r2 d h1 h2 hA
+  · by_cases hB : d ≤ |r1 - r2|
+    · exact lens_nested r1 r2 d h1 h2 hd0 hB
+    · exact lens_proper r1 r2 d h1 h2 (not_le.mp hB) (not_lt.mp hA)
+
+/-- the lens formula is symmetric in the two spheres -/
+theorem lens_symm (r1 r2 d : ℝ) : lensVolume Real.pi r1 r2 d = lensVolume Real.pi r2 r1 d := by
+  simp only [lensVolume, absK_eq, minK_eq, abs_sub_comm r2 r1, min_comm r2 r1, add_comm r2 r1]
+  split_ifs <;> ring
+
+/-! ### sphere ∩ frustum helpers -/
+
+theorem frustum_volume' (r1 k zs : ℝ) :
+    frustumVolume Real.pi r1 (r1 + k * zs) zs = Real.pi * ∫ z in (0:ℝ)..zs, (r1 + k * z)^2 := by
+  simp only [lin_sq_quad, integral_quadratic, frustumVolume]
+  ring
+
+theorem narrow_inside (r1 k zs h : ℝ) (P : ℝ → ℝ) (hh : 0 ≤ h)
+    (hlow : ∀ z, 0 ≤ z → z ≤ zs → P z = (r1 + k * z)^2) (hzh : h ≤ zs) :
+    frustumVolume Real.pi r1 (r1 + k * h) h = Real.pi * ∫ z in (0:ℝ)..h, P z := by
+  have e : ∀ z ∈ Set.uIcc (0:ℝ) h, P z = (r1 + k * z)^2 := by
+    intro z hz
+    rw [Set.uIcc_of_le hh] at hz
+    exact hlow z hz.1 (hz.2.trans hzh)
+  rw [integral_congr e, frustum_volume']
+
+theorem narrow_split (r1 k zs b : ℝ) (P : ℝ → ℝ) (hP : Continuous P) (hzs0 : 0 ≤ zs) (hzb : zs ≤ b)
+    (hlow : ∀ z, 0 ≤ z → z ≤ zs → P z = (r1 + k * z)^2)
+    (hhigh : ∀ z, zs ≤ z → P z = r1^2 - z^2) :
+    ∫ z in (0:ℝ)..b, P z = (∫ z in (0:ℝ)..zs, (r1 + k * z)^2) + ∫ z in zs..b, (r1^2 - z^2) := by
+  have e1 : ∀ z ∈ Set.uIcc (0:ℝ) zs, P z = (r1 + k * z)^2 := by
+    intro z hz
+    rw [Set.uIcc_of_le hzs0] at hz
+    exact hlow z hz.1 hz.2
+  have e2 : ∀ z ∈ Set.uIcc zs b, P z = r1^2 - z^2 := by
+    intro z hz
+    rw [Set.uIcc_of_le hzb] at hz
+    exact hhigh z hz.1
+  rw [← integral_add_adjacent_intervals (b := zs) (hP.intervalIntegrable _ _) (hP.intervalIntegrable _ _),
+    integral_congr e1, integral_congr e2]
+
+theorem narrow_high (r1 k zs : ℝ) (P : ℝ → ℝ) (hP : Continuous P) (hzs0 : 0 ≤ zs) (hzs1 : zs ≤ r1)
+    (hlow : ∀ z, 0 ≤ z → z ≤ zs → P z = (r1 + k * z)^2)
+    (hhigh : ∀ z, zs ≤ z → P z = r1^2 - z^2) :
+    capVolume Real.pi r1 (r1 - zs) + frustumVolume Real.pi r1 (r1 + k * zs) zs
+      = Real.pi * ∫ z in (0:ℝ)..r1, P z := by
+  rw [narrow_split r1 k zs r1 P hP hzs0 hzs1 hlow hhigh]
+  simp only [lin_sq_quad, sq_sub_sq_quad, integral_quadratic, capVolume, frustumVolume]
+  ring
+
+theorem narrow_low (r1 k zs h : ℝ) (P : ℝ → ℝ) (hP : Continuous P) (hzs0 : 0 ≤ zs) (hzh : zs ≤ h)
+    (hlow : ∀ z, 0 ≤ z → z ≤ zs → P z = (r1 + k * z)^2)
+    (hhigh : ∀ z, zs ≤ z → P z = r1^2 - z^2) :
+    capVolume Real.pi r1 (r1 - zs) + frustumVolume Real.pi r1 (r1 + k * zs) zs - capVolume Real.pi r1 (r1 - h)
+      = Real.pi * ∫ z in (0:ℝ)..h, P z := by
+  rw [narrow_split r1 k zs h P hP hzs0 hzh hlow hhigh]
+  simp only [lin_sq_quad, sq_sub_sq_quad, integral_quadratic, capVolume, frustumVolume]
+  ring
+
+theorem sfProfile_continuous (r1 r2 h : ℝ) : Continuous (sfProfile r1 r2 h) := by
+  unfold sfProfile; fun_prop
+
+/-- geometry of the narrowing frustum: the lateral edge leaves the sphere at height `zs = t·h` -/
+theorem sf_geom (r1 r2 h : ℝ) (hh : 0 < h) (hr : r2 < r1) (hr1 : 0 < r1) :
+    0 < exitT r1 r2 h * h ∧ exitT r1 r2 h * h ≤ r1 ∧
+    (∀ z, 0 ≤ z → z ≤ exitT r1 r2 h * h → sfProfile r1 r2 h z = (r1 + (r2 - r1) / h * z)^2) ∧
+    (∀ z, exitT r1 r2 h * h ≤ z → sfProfile r1 r2 h z = r1^2 - z^2) ∧
+    r1 + exitT r1 r2 h * (r2 - r1) = r1 + (r2 - r1) / h * (exitT r1 r2 h * h) := by
+  have hD : 0 < h * h + (r1 - r2) * (r1 - r2) := by nlinarith [mul_self_nonneg (r1 - r2)]
+  have ht : 0 < exitT r1 r2 h := by
+    unfold exitT
+    apply div_pos _ hD
+    have : 0 < r1 - r2 := by linarith
+    positivity
+  set t := exitT r1 r2 h with htdef
+  set k := (r2 - r1) / h with hkdef
+  have hkh : k * h = r2 - r1 := by rw [hkdef]; field_simp
+  have hk1 : 0 < k^2 + 1 := by positivity
+  have hzs0 : 0 < t * h := mul_pos ht hh
+  have hzs : (t * h) * (k^2 + 1) = -2 * r1 * k := by
+    rw [htdef, hkdef]; unfold exitT; field_simp; ring
+  have hzs1 : t * h ≤ r1 := by
+    have : t * h * (k^2 + 1) ≤ r1 * (k^2 + 1) := by rw [hzs]; nlinarith [sq_nonneg (k + 1)]
+    exact le_of_mul_le_mul_right this hk1
+  have key : ∀ z : ℝ, (r1 + k * z)^2 - (r1^2 - z^2) = z * ((k^2 + 1) * z - (t * h) * (k^2 + 1)) := by
+    intro z; rw [hzs]; ring
+  refine ⟨hzs0, hzs1, ?_, ?_, ?_⟩
+  · intro z hz0 hz1
+    unfold sfProfile
+    apply min_eq_right
+    have h2 : z * ((k^2 + 1) * z - (t * h) * (k^2 + 1)) ≤ 0 := by
+      apply mul_nonpos_of_nonneg_of_nonpos hz0
+      nlinarith
+    have := key z
+    linarith
+  · intro z hz
+    unfold sfProfile
+    apply min_eq_left
+    have h2 : 0 ≤ z * ((k^2 + 1) * z - (t * h) * (k^2 + 1)) := by
+      apply mul_nonneg (hzs0.le.trans hz)
+      nlinarith
+    have := key z
+    linarith
+  · rw [show k * (t * h) = t * (k * h) by ring, hkh]
+
+/-- sphere ∩ frustum, frustum widening away from the sphere (`r2 ≥ r1`): hemisphere, or the
+hemisphere minus the cap above the frustum's far end -/
+theorem concentric_wide (eps r1 r2 h t h1 r3 : ℝ) (he : 0 ≤ eps) (hr1 : 0 < r1) (hr : r1 ≤ r2) (hh : 0 < h) :
+    concentricCore Real.pi eps h r1 r2 t h1 r3 = Real.pi * ∫ z in (0:ℝ)..(min h r1), sfProfile r1 r2 h z := by
+  have hc : r2 - r1 ≥ -eps := by linarith
+  have hk : 0 ≤ (r2 - r1) / h := div_nonneg (by linarith) hh.le
+  have hprof : ∀ b, 0 ≤ b → ∀ z ∈ Set.uIcc (0:ℝ) b, sfProfile r1 r2 h z = r1^2 - z^2 := by
+    intro b hb z hz
+    rw [Set.uIcc_of_le hb] at hz
+    unfold sfProfile
+    apply min_eq_left
+    have : 0 ≤ (r2 - r1) / h * z := mul_nonneg hk hz.1
+    nlinarith [sq_nonneg z]
+  by_cases hhr : h ≥ r1
+  · simp only [concentricCore, if_pos hc, if_pos hhr]
+    rw [min_eq_right hhr, integral_congr (hprof r1 hr1.le)]
+    simp only [sq_sub_sq_quad, integral_quadratic, capVolume]; ring
+  · simp only [concentricCore, if_pos hc, if_neg hhr]
+    rw [min_eq_left (not_le.mp hhr).le, integral_congr (hprof h hh.le)]
+    simp only [sq_sub_sq_quad, integral_quadratic, capVolume]; ring
+
+/-- sphere ∩ frustum, frustum narrowing (`r2 < r1 - eps`), outside the code's `eps` band for `t`:
+the frustum lies inside the sphere (`t > 1`), or leaves it at height `t·h` (`t ≤ 1`) -/
+theorem concentric_narrow (eps r1 r2 h : ℝ) (he : 0 ≤ eps) (hr2 : 0 ≤ r2) (hr : r2 < r1 - eps) (hh : 0 < h)
+    (hband : ¬ (1 < exitT r1 r2 h ∧ exitT r1 r2 h ≤ 1 + eps)) :
+    concentricCore Real.pi eps h r1 r2 (exitT r1 r2 h) (exitT r1 r2 h * h) (r1 + exitT r1 r2 h * (r2 - r1))
+      = Real.pi * ∫ z in (0:ℝ)..(min h r1), sfProfile r1 r2 h z := by
+  have hr1 : 0 < r1 := by linarith
+  have hrr : r2 < r1 := by linarith
+  have hc : ¬ (r2 - r1 ≥ -eps) := by intro h'; linarith
+  obtain ⟨hzs0, hzs1, hlow, hhigh, hr3⟩ := sf_geom r1 r2 h hh hrr hr1
+  have hP := sfProfile_continuous r1 r2 h
+  have hkh : (r2 - r1) / h * h = r2 - r1 := by field_simp
+  by_cases ht : exitT r1 r2 h > 1 + eps
+  · -- frustum inside the sphere
+    have ht1 : 1 < exitT r1 r2 h := by linarith
+    have hzh : h < exitT r1 r2 h * h := by nlinarith
+    have hhr : h < r1 := lt_of_lt_of_le hzh hzs1
+    simp only [concentricCore, if_neg hc, if_pos ht]
+    rw [min_eq_left hhr.le, ← narrow_inside r1 ((r2 - r1) / h) (exitT r1 r2 h * h) h _ hh.le hlow hzh.le,
+      hkh]
+    congr 1; ring
+  · have ht1 : exitT r1 r2 h ≤ 1 := by
+      by_contra h'
+      exact hband ⟨not_le.mp h', not_lt.mp ht⟩
+    have hzh : exitT r1 r2 h * h ≤ h := by nlinarith
+    by_cases hhr : h ≥ r1
+    · simp only [concentricCore, if_neg hc, if_neg ht, if_pos hhr]
+      rw [min_eq_right hhr, hr3]
+      exact narrow_high r1 _ _ _ hP hzs0.le hzs1 hlow hhigh
+    · simp only [concentricCore, if_neg hc, if_neg ht, if_neg hhr]
+      rw [min_eq_left (not_le.mp hhr).le, hr3]
+      exact narrow_low r1 _ _ h _ hP hzs0.le hzh hlow hhigh
+
+/-- **sphere ∩ frustum, every configuration outside the two `eps` bands** of the code
+(`-eps ≤ r2 - r1 < 0` and `1 < t ≤ 1 + eps`, where the code deliberately rounds to the neighbouring case) -/
+theorem concentric_volume (eps r1 r2 h : ℝ) (he : 0 ≤ eps) (hr1 : 0 < r1) (hr2 : 0 ≤ r2) (hh : 0 < h)
+    (hband1 : ¬ (-eps ≤ r2 - r1 ∧ r2 < r1))
+    (hband2 : ¬ (1 < exitT r1 r2 h ∧ exitT r1 r2 h ≤ 1 + eps)) :
+    concentricCore Real.pi eps h r1 r2 (exitT r1 r2 h) (exitT r1 r2 h * h) (r1 + exitT r1 r2 h * (r2 - r1))
+      = Real.pi * ∫ z in (0:ℝ)..(min h r1), sfProfile r1 r2 h z := by
+  by_cases hr : r1 ≤ r2
+  · exact concentric_wide eps r1 r2 h _ _ _ he hr1 hr hh
+  · have hrr : r2 < r1 := not_le.mp hr
+    have : r2 < r1 - eps := by
+      by_contra h'
+      exact hband1 ⟨by linarith, hrr⟩
+    exact concentric_narrow eps r1 r2 h he hr2 this hh hband2
+
+/-- the exit point really is where the lateral edge meets the sphere: at parameter `t` the edge point
+`(r1 + t (r2 - r1), t h)` has distance `r1` from the centre -/
+theorem exitT_on_sphere (r1 r2 h : ℝ) (hh : 0 < h) :
+    (r1 + exitT r1 r2 h * (r2 - r1))^2 + (exitT r1 r2 h * h)^2 = r1^2 := by
+  have hD : 0 < h * h + (r1 - r2) * (r1 - r2) := by nlinarith [mul_self_nonneg (r1 - r2)]
+  unfold exitT
+  field_simp
+  ring
+
+/-- unions by inclusion–exclusion over any finitely additive set function -/
+theorem union_volume {α : Type} (m : Set α → ℝ) (hm : Additive.FinAdd m) (A B : Set α) :
+    m (A ∪ B) = unionFromParts (m A) (m B) (m (A ∩ B)) ∧ m (A ∪ B) = sfUnionFromParts (m A) (m B) (m (A ∩ B)) := by
+  exact ⟨hm.union_inter A B, hm.union_inter A B⟩
+
+-- non-vacuity: hypotheses are satisfiable at concrete non-trivial configurations
+example : (0:ℝ) ≤ 2 ∧ (0:ℝ) ≤ 1 ∧ |(2:ℝ) - 1| < 2 ∧ (2:ℝ) ≤ 2 + 1 := by norm_num [abs_of_pos]
+example : ¬ (-(1e-6 : ℝ) ≤ 1 - 2 ∧ (1:ℝ) < 2) := by norm_num
+
+end
+end C13
